@@ -542,11 +542,22 @@ func onlyTest@() int { return @ }
 		c.Files[fmt.Sprintf("%s/%c.go", p.name, 'c'+f)] = sb.String()
 	}
 
+	// ---- s.go: the same unexported names on the same lines in every package
+	// (used by the in-package test where there is one, unused elsewhere)
+	c.Files[p.name+"/s.go"] = "package p" + I + `
+
+func sharedName() int { return 1 }
+
+type sharedType struct{ f int }
+
+var sharedVar = 3
+`
+
 	// ---- tests
 	if p.tests {
 		c.Files[p.name+"/a_test.go"] = strings.ReplaceAll(`package p@
 
-var fromTest@ = onlyTest@() + helper@()
+var fromTest@ = onlyTest@() + helper@() + sharedName() + sharedType{}.f
 
 func helper@() int { return 1 }
 
@@ -634,14 +645,16 @@ func genPlan(rt *rapid.T, c *Case, nrep, nfmt, nsingles, nsubsets int, allSubset
 		}
 		s.Args = args
 		// second spelling: every named package once, another order
-		var args2 []string
-		for _, p := range shuffled(rt, "subset_order2", set) {
-			args2 = append(args2, spell(rt, p))
+		if allSubsets || chance(rt, "second_order", 50) {
+			var args2 []string
+			for _, p := range shuffled(rt, "subset_order2", set) {
+				args2 = append(args2, spell(rt, p))
+			}
+			if dots {
+				args2 = append(args2, "./...")
+			}
+			s.Args2 = args2
 		}
-		if dots {
-			args2 = append(args2, "./...")
-		}
-		s.Args2 = args2
 		return s
 	}
 	if allSubsets {
